@@ -698,8 +698,14 @@ func (e *Engine) findCounterexample(fc *FuncContract, opt CheckOptions) map[stri
 	}
 	pkgDir, _ = filepath.Rel(opt.RepoDir, cs.PkgDir)
 	overlay := map[string][]byte{}
+	for k, b := range NeutralHookOverlay(opt.RepoDir, map[string]bool{cs.PkgDir: true}) {
+		overlay[k] = b
+	}
 	for k, b := range cs.Overlay {
 		overlay[k] = b
+	}
+	if cs.FromRepo {
+		// the contract file is read from the tree; the shared spec files and clause functions come from the overlay
 	}
 	test := strings.Replace(replayTestTemplate, "package PKG", "package "+cs.PkgName, 1) + "\n" + e.replayRegistry(cs)
 	overlay[filepath.Join(cs.PkgDir, "zz_verif_replay_test.go")] = []byte(test)
@@ -759,6 +765,9 @@ func (e *Engine) familyReplay(familyDir, oblName string) map[string]any {
 		return nil
 	}
 	overlay := map[string][]byte{}
+	for k, b := range NeutralHookOverlay(e.Cfg.RepoDir, nil) {
+		overlay[k] = b // the generated package only needs its own contract file; every hook file of the repository is neutralised
+	}
 	for k, b := range cs.Overlay {
 		overlay[k] = b
 	}
@@ -790,6 +799,9 @@ func runStandins(pc *PropConfig, opt CheckOptions, say func(string, ...any), pro
 		dir := filepath.Join(opt.VerifDir, "standins", s.Pkg)
 		files, _ := filepath.Glob(filepath.Join(dir, "*_test.go"))
 		overlay := map[string][]byte{}
+		for k, b := range NeutralHookOverlay(opt.RepoDir, nil) {
+			overlay[k] = b // stand-ins are self-contained tests: every hook file is neutralised
+		}
 		for _, f := range files {
 			b, err := os.ReadFile(f)
 			if err != nil {
